@@ -27,6 +27,18 @@ SOLVERS = {
 }
 PORTFOLIO = ("z3-5.1", "cvc5", "z3-5.1/ematch", "z3-4.8", "z3-5.1/arith2", "z3-4.8/ematch")
 
+# Confirmation step.  z3 (both installed versions) has answered `unsat` on satisfiable files that combine the dict
+# well-formedness quantifier, a datatype and seq.extract (selftest/solver_regress/z3_seq_extract.smt2: E-matching
+# bug).  Every `unsat` on a file with quantifiers + sequences/datatypes is therefore re-run with configurations whose
+# quantifier machinery differs (E-matching off, model-based instantiation on; cvc5).  A `sat` from any of them means
+# the obligation is NOT discharged (verdict `disagree`); unsat answers are recorded in `confirmed_by`.
+CONFIRM = {
+    "z3-5.1/noematch": ["z3-new", "-smt2", "smt.ematching=false", "smt.mbqi=true"],
+    "z3-4.8/noematch": ["/usr/bin/z3", "-smt2", "smt.ematching=false", "smt.mbqi=true"],
+    "cvc5/confirm": ["/usr/bin/cvc5", "--lang=smt2", "--strings-exp", "--arrays-exp", "--produce-models"],
+}
+SOLVERS.update(CONFIRM)
+
 
 @dataclass
 class Result:
@@ -41,6 +53,9 @@ class Result:
     attempts: list = field(default_factory=list)
     line: int | None = None
     info: dict = field(default_factory=dict)
+    confirmed_by: list = field(default_factory=list)  # every configuration that answered unsat (the prover first)
+    disagree: dict | None = None  # {"solver":, "model":} when a confirmation run answered sat (status == "disagree")
+    confirm_attempts: list = field(default_factory=list)
 
     @property
     def ok(self):
@@ -244,6 +259,63 @@ def run_solver(solver: str, path: str, timeout: float):
     return "error", (out + r.stderr)[:2000], dt
 
 
+def needs_confirmation(path: str) -> bool:
+    try:
+        with open(path) as f:
+            txt = f.read()
+    except OSError:
+        return False
+    return "(forall " in txt and ("seq." in txt or "(declare-datatypes" in txt)
+
+
+def _solver_cmd(solver: str, path: str, timeout: float):
+    cmd = list(SOLVERS[solver])
+    if solver.startswith("z3"):
+        return cmd + [f"-T:{max(1, int(timeout))}", path]
+    p2 = path[:-5] + ".cvc5c.smt2"
+    with open(path) as f:
+        txt = f.read()
+    with open(p2, "w") as f:
+        f.write(("" if "(set-logic" in txt else "(set-logic ALL)\n") + txt)
+    return cmd + [f"--tlimit={int(timeout * 1000)}", p2]
+
+
+def confirm(path: str, prover: str, timeout: float):
+    """Run the confirmation configurations concurrently.  -> (disagree | None, [configs that said unsat], attempts)"""
+    procs = {}
+    for name in CONFIRM:
+        if name == prover or (name.startswith("cvc5") and (path in _no_cvc5 or prover == "cvc5")):
+            continue
+        try:
+            procs[name] = (subprocess.Popen(_solver_cmd(name, path, timeout), stdout=subprocess.PIPE, stderr=subprocess.DEVNULL, text=True), time.time())
+        except OSError:
+            continue
+    unsat, attempts, dis = [], [], None
+    deadline = time.time() + timeout + 5
+    pending = dict(procs)
+    while pending:
+        for name, (p, t0) in list(pending.items()):
+            if p.poll() is None and time.time() < deadline and dis is None:
+                continue
+            if p.poll() is None:
+                p.kill()
+                out = ""
+            else:
+                out = p.stdout.read() if p.stdout else ""
+            del pending[name]
+            first = out.strip().split("\n", 1)[0].strip() if out.strip() else "timeout"
+            if first not in ("sat", "unsat", "unknown"):
+                first = "timeout" if "timeout" in out or not out.strip() else "error"
+            attempts.append({"solver": name, "status": first, "time_s": round(time.time() - t0, 3), "limit_s": timeout})
+            if first == "unsat":
+                unsat.append(name)
+            elif first == "sat" and dis is None:
+                dis = {"solver": name, "model": out.split("\n", 1)[1][:6000] if "\n" in out else ""}
+        if pending:
+            time.sleep(0.02)
+    return dis, unsat, attempts
+
+
 def discharge_one(ob: Obligation, outdir: str, timeout: float, portfolio, extra_fuel=0) -> Result:
     try:
         path = write_smt2(ob, outdir, extra_fuel)
@@ -263,7 +335,55 @@ def discharge_one(ob: Obligation, outdir: str, timeout: float, portfolio, extra_
     return res
 
 
-def discharge(obs, outdir, timeout=20.0, portfolio=PORTFOLIO, jobs=16, extra_fuel=0):
+def solve_file(res: Result, timeout=10.0, portfolio=PORTFOLIO, confirm_unsat=True, rounds=None) -> Result:
+    """Decide one SMT-LIB2 file (res.smt_file): portfolio with escalating budgets, then the confirmation step."""
+    path = res.smt_file
+    # escalating budgets: most proofs take milliseconds in some configuration; the long last round only runs
+    # for what is still open, so that a busy machine does not flip a verdict to "unknown"
+    if rounds is None or res.expect_fail:
+        rounds = [min(timeout, 4.0)] if res.expect_fail else [3.0, timeout, max(60.0, 3 * timeout)]
+    decided = False
+    for rnd, tmo in enumerate(rounds):
+        for solver in (portfolio[:2] if res.expect_fail else portfolio):
+            if solver == "cvc5" and path in _no_cvc5:
+                continue
+            if rnd > 0 and any(a["solver"] == solver and a["status"] in ("unknown", "error") for a in res.attempts):
+                continue  # a definite 'unknown' will not change with more time
+            st, out, dt = run_solver(solver, path, tmo)
+            res.attempts.append({"solver": solver, "status": st, "time_s": round(dt, 3), "limit_s": tmo})
+            res.time_s += dt
+            if st == "unsat":
+                res.status, res.solver = "proved", solver
+                res.confirmed_by = [solver]
+                decided = True
+                break
+            if st == "sat":
+                res.status, res.solver, res.model = "refuted", solver, out[:6000]
+                decided = True
+                break
+        if decided:
+            break
+    # (an `unsat` of the old z3 4.8.12 is always re-examined: it has also been seen to answer unsat on a satisfiable
+    # quantifier-free seq/array file, notes/C13.requests.md item 9)
+    if res.status == "proved" and not res.expect_fail and confirm_unsat and (needs_confirmation(path) or str(res.solver).startswith("z3-4.8")):
+        dis, agree, att = confirm(path, res.solver, 3.0 if timeout <= 10 else 10.0)
+        res.confirm_attempts = att
+        res.confirmed_by += agree
+        res.time_s += max([a["time_s"] for a in att], default=0.0)
+        if dis is not None:
+            # two solver configurations contradict each other on this file: nothing is established
+            res.status, res.disagree, res.model = "disagree", dis, dis["model"]
+            try:
+                with open(path[:-5] + ".disagree.txt", "w") as f:
+                    f.write(f"; {res.solver} answered unsat, {dis['solver']} answered sat on {os.path.basename(path)}\n; command: {' '.join(SOLVERS[dis['solver']])}\n{dis['model']}\n")
+            except OSError:
+                pass
+    return res
+
+
+def discharge(obs, outdir, timeout=20.0, portfolio=PORTFOLIO, jobs=16, extra_fuel=0, confirm_unsat=None, rounds=None):
+    if confirm_unsat is None:
+        confirm_unsat = os.environ.get("PYVC_CONFIRM", "1") != "0"
     results = [None] * len(obs)
     # emission uses the z3 python API (not thread-safe): emit serially, solve in parallel
     paths = []
@@ -277,30 +397,7 @@ def discharge(obs, outdir, timeout=20.0, portfolio=PORTFOLIO, jobs=16, extra_fue
     def work(i):
         ob = obs[i]
         res = Result(ob.name, ob.kind, "unknown", smt_file=paths[i], expect_fail=ob.expect_fail, line=ob.line, info=ob.info)
-        # escalating budgets: most proofs take milliseconds in some configuration; the long last round only runs
-        # for what is still open, so that a busy machine does not flip a verdict to "unknown"
-        rounds = [min(timeout, 4.0)] if ob.expect_fail else [3.0, timeout, max(60.0, 3 * timeout)]
-        decided = False
-        for rnd, tmo in enumerate(rounds):
-            for solver in (portfolio[:2] if ob.expect_fail else portfolio):
-                if solver == "cvc5" and paths[i] in _no_cvc5:
-                    continue
-                if rnd > 0 and any(a["solver"] == solver and a["status"] in ("unknown", "error") for a in res.attempts):
-                    continue  # a definite 'unknown' will not change with more time
-                st, out, dt = run_solver(solver, paths[i], tmo)
-                res.attempts.append({"solver": solver, "status": st, "time_s": round(dt, 3), "limit_s": tmo})
-                res.time_s += dt
-                if st == "unsat":
-                    res.status, res.solver = "proved", solver
-                    decided = True
-                    break
-                if st == "sat":
-                    res.status, res.solver, res.model = "refuted", solver, out[:6000]
-                    decided = True
-                    break
-            if decided:
-                break
-        return i, res
+        return i, solve_file(res, timeout, portfolio, confirm_unsat, rounds)
 
     with cf.ThreadPoolExecutor(max_workers=jobs) as pool:
         futs = [pool.submit(work, i) for i in range(len(obs)) if results[i] is None]
